@@ -321,6 +321,165 @@ theorem C14_nonstack (a : ArrayVal) (h : a.isStack = false) :
     a.shape = a.dataShape ∧ a.rank = a.dataShape.length ∧ a.depth = 0 := by
   simp [ArrayVal.shape, ArrayVal.rank, ArrayVal.depth, h]
 
+/-! ### the constructor succeeds, and what it builds -/
+
+theorem setDim_ok (ops : NumOps) (a : ArrayVal) (n : Nat) (d : DimArg) (u nm : String) (v : List Num)
+    (hn : n < a.rank) (hv : unpackDim ops d (a.shape.getD n 0) = .ok v) :
+    setDim ops a n d (some u) (some nm) =
+      .ok { a with dims := setNth a.dims n v, dimUnits := setNth a.dimUnits n u, dimNames := setNth a.dimNames n nm } := by
+  have : ¬ n ≥ a.rank := by omega
+  simp only [setDim, this, if_false, hv, bind, Except.bind, pure, Except.pure]
+
+theorem fold_setDim_ok (ops : NumOps) (args : Nat → DimArg) (us ns : Nat → String) (v : Nat → List Num) :
+    ∀ (is : List Nat) (a : ArrayVal), LenInv a → is.Nodup → (∀ i ∈ is, i < a.rank) →
+    (∀ i ∈ is, unpackDim ops (args i) (a.shape.getD i 0) = .ok (v i)) →
+    ∃ a', is.foldlM (fun a i => setDim ops a i (args i) (some (us i)) (some (ns i))) a = .ok a' ∧
+      LenInv a' ∧ a'.dataShape = a.dataShape ∧ a'.isStack = a.isStack ∧ a'.labels = a.labels ∧ a'.units = a.units ∧
+      a'.dataTok = a.dataTok ∧
+      (∀ i ∈ is, a'.dims.getD i [] = v i ∧ a'.dimUnits.getD i "" = us i ∧ a'.dimNames.getD i "" = ns i) ∧
+      (∀ m, m ∉ is → a'.dims.getD m [] = a.dims.getD m [] ∧ a'.dimUnits.getD m "" = a.dimUnits.getD m "" ∧
+        a'.dimNames.getD m "" = a.dimNames.getD m "")
+  | [], a, hinv, _, _, _ => ⟨a, rfl, hinv, rfl, rfl, rfl, rfl, rfl, fun i hi => by simp at hi, fun m _ => ⟨rfl, rfl, rfl⟩⟩
+  | i :: rest, a, hinv, hnd, hlt, hv => by
+    simp only [List.nodup_cons] at hnd
+    have hi := hlt i List.mem_cons_self
+    let a1 : ArrayVal := { a with dims := setNth a.dims i (v i), dimUnits := setNth a.dimUnits i (us i),
+                                  dimNames := setNth a.dimNames i (ns i) }
+    have h1 : setDim ops a i (args i) (some (us i)) (some (ns i)) = .ok a1 :=
+      setDim_ok ops a i (args i) (us i) (ns i) (v i) hi (hv i List.mem_cons_self)
+    have hshape : a1.shape = a.shape := rfl
+    have hrank : a1.rank = a.rank := rfl
+    have hinv1 : LenInv a1 := by
+      obtain ⟨l1, l2, l3⟩ := hinv
+      exact ⟨by simp [a1, setNth_length]; exact l1, by simp [a1, setNth_length]; exact l2, by simp [a1, setNth_length]; exact l3⟩
+    obtain ⟨a', hf, hinv', hs, hst, hl, hu, ht, hall, hother⟩ := fold_setDim_ok ops args us ns v rest a1 hinv1 hnd.2
+      (fun j hj => by rw [hrank]; exact hlt j (List.mem_cons_of_mem _ hj))
+      (fun j hj => by rw [hshape]; exact hv j (List.mem_cons_of_mem _ hj))
+    refine ⟨a', ?_, hinv', hs, hst, hl, hu, ht, ?_, ?_⟩
+    · simp only [List.foldlM, h1, bind, Except.bind]; exact hf
+    · intro j hj
+      simp only [List.mem_cons] at hj
+      cases hj with
+      | inr hr => exact hall j hr
+      | inl he =>
+        subst he
+        obtain ⟨o1, o2, o3⟩ := hother j hnd.1
+        obtain ⟨l1, l2, l3⟩ := hinv
+        refine ⟨o1.trans ?_, o2.trans ?_, o3.trans ?_⟩
+        · exact setNth_same [] a.dims j (v j) (by rw [l1]; exact hi)
+        · exact setNth_same "" a.dimUnits j (us j) (by rw [l2]; exact hi)
+        · exact setNth_same "" a.dimNames j (ns j) (by rw [l3]; exact hi)
+    · intro m hm
+      simp only [List.mem_cons, not_or] at hm
+      obtain ⟨o1, o2, o3⟩ := hother m hm.2
+      exact ⟨o1.trans (setNth_other [] a.dims i m (v i) hm.1), o2.trans (setNth_other "" a.dimUnits i m (us i) hm.1),
+        o3.trans (setNth_other "" a.dimNames i m (ns i) hm.1)⟩
+
+theorem padTo_exact {α : Type} (n : Nat) (xs : List α) (fill : Nat → α) (h : xs.length = n) : padTo n xs fill = xs := by
+  unfold padTo
+  have : ¬ xs.length < n := by omega
+  simp only [this, if_false]
+  rw [← h]; exact List.take_length
+
+theorem getD_default {α : Type} (l : List α) (i : Nat) (d1 d2 : α) (h : i < l.length) : l.getD i d1 = l.getD i d2 := by
+  simp [List.getD_eq_getElem?_getD, List.getElem?_eq_getElem h]
+
+theorem initArray_fields (tok : String) (dataShape : List Nat) (units : String) (lab : LabelArg) :
+    (initArray tok dataShape units lab).dataTok = tok ∧ (initArray tok dataShape units lab).dataShape = dataShape ∧
+    (initArray tok dataShape units lab).units = units ∧ (initArray tok dataShape units lab).isStack = labIsStack lab := by
+  simp [initArray]
+
+/-- `Array(**args)` with one dim vector, unit and name per axis: succeeds when every vector unpacks, and holds exactly
+    the unpacked vectors, the given units and the given names -/
+theorem mkArray_ok (ops : NumOps) (tok : String) (dataShape : List Nat) (units : String) (ds : List DimArg)
+    (nms uns : List String) (lab : LabelArg) (v : Nat → List Num)
+    (hst : (labIsStack lab && dataShape.isEmpty) = false)
+    (hl1 : ds.length = (initArray tok dataShape units lab).rank) (hl2 : nms.length = (initArray tok dataShape units lab).rank)
+    (hl3 : uns.length = (initArray tok dataShape units lab).rank)
+    (hnn : ∀ i, i < (initArray tok dataShape units lab).rank → ∃ xs, ds.getD i .none = .vec xs)
+    (hv : ∀ i, i < (initArray tok dataShape units lab).rank →
+      unpackDim ops (ds.getD i .none) ((initArray tok dataShape units lab).shape.getD i 0) = .ok (v i)) :
+    ∃ a, mkArray ops tok dataShape units (some ds) (some nms) (some uns) lab = .ok a ∧
+      a.dataTok = tok ∧ a.dataShape = dataShape ∧ a.units = units ∧ a.isStack = labIsStack lab ∧
+      a.labels = (initArray tok dataShape units lab).labels ∧ LenInv a ∧
+      (∀ i, i < (initArray tok dataShape units lab).rank →
+        a.dims.getD i [] = v i ∧ a.dimUnits.getD i "" = uns.getD i "" ∧ a.dimNames.getD i "" = nms.getD i "") := by
+  generalize ha0 : initArray tok dataShape units lab = a0 at *
+  obtain ⟨f1, f2, f3, f4⟩ := initArray_fields tok dataShape units lab
+  rw [ha0] at f1 f2 f3 f4
+  have hinv0 : LenInv a0 := ha0 ▸ initArray_inv tok dataShape units lab
+  have hargs : ctorDimArgs a0.rank (some ds) = ds := by simp only [ctorDimArgs]; exact padTo_exact _ _ _ hl1
+  have hunits : ∀ i, i < a0.rank → (ctorUnits a0.rank ds (some uns)).getD i "unknown" = uns.getD i "" := by
+    intro i hi
+    have hlen : i < (ctorUnits a0.rank ds (some uns)).length := by simp [ctorUnits]; exact hi
+    simp only [ctorUnits, padTo_exact _ _ _ hl3]
+    rw [List.getD_eq_getElem?_getD, List.getElem?_map, List.getElem?_range hi]
+    obtain ⟨xs, hx⟩ := hnn i hi
+    simp only [Option.map_some, Option.getD_some, hx]
+    exact getD_default uns i _ _ (by rw [hl3]; exact hi)
+  have hnames : ∀ i, i < a0.rank → (ctorNames a0.rank (some nms)).getD i "" = nms.getD i "" := by
+    intro i _
+    simp only [ctorNames, padTo_exact _ _ _ hl2]
+  obtain ⟨a, hf, hinv, hs, hstk, hl, hu, ht, hall, _⟩ :=
+    fold_setDim_ok ops (fun i => ds.getD i .none) (fun i => (ctorUnits a0.rank ds (some uns)).getD i "unknown")
+      (fun i => (ctorNames a0.rank (some nms)).getD i "") v (List.range a0.rank) a0 hinv0 (range_nodup _)
+      (fun i hi => List.mem_range.mp hi) (fun i hi => hv i (List.mem_range.mp hi))
+  refine ⟨a, ?_, ht.trans f1, hs.trans f2, hu.trans f3, hstk.trans f4, hl, hinv, ?_⟩
+  · simp only [mkArray, hst, Bool.false_eq_true, if_false, ha0, hargs, buildDims]
+    exact hf
+  · intro i hi
+    obtain ⟨h1, h2, h3⟩ := hall i (List.mem_range.mpr hi)
+    exact ⟨h1, h2.trans (hunits i hi), h3.trans (hnames i hi)⟩
+
+
+/-! ### `get_slice` / `ar[label]` -/
+
+theorem unpackDim_full (ops : NumOps) (xs : List Num) (n : Nat) (h : xs.length = n) : unpackDim ops (.vec xs) n = .ok xs := by
+  simp [unpackDim, dimVec, unpackVec, h, pure, Except.pure]
+
+/-- C14, slices: for a stack whose calibrations are well formed (one vector, unit and name per non-label axis, every vector
+    as long as its axis), `ar[label]` for a label that occurs in the label list succeeds and returns the slice the label
+    addresses (`labelIndex`: for distinct labels, `C14_label_index`, its position) as an ordinary Array over the remaining
+    shape with the stack's units and, per axis, exactly the stack's dim vector, dim unit and dim name -/
+theorem C14_slice_calibrations (ops : NumOps) (sliceTok : String → Nat → String) (a : ArrayVal) (l : String) (i : Nat)
+    (hs : a.isStack = true) (hinv : LenInv a) (hdim : ∀ n, n < a.rank → DimOK a n)
+    (hl : labelIndex a.labels l = some i) :
+    ∃ s, a.getSlice ops sliceTok l = .ok (i, s) ∧ s.dataTok = sliceTok a.dataTok i ∧ s.isStack = false ∧
+      s.dataShape = a.shape ∧ s.rank = a.rank ∧ s.units = a.units ∧ LenInv s ∧
+      ∀ n, n < a.rank → s.dims.getD n [] = a.dims.getD n [] ∧ s.dimUnits.getD n "" = a.dimUnits.getD n "" ∧
+        s.dimNames.getD n "" = a.dimNames.getD n "" := by
+  have hshape : a.shape = a.dataShape.drop 1 := by simp [ArrayVal.shape, hs]
+  have hr0 : (initArray (sliceTok a.dataTok i) (a.dataShape.drop 1) a.units .none).rank = a.rank := by
+    simp [initArray, ArrayVal.rank, ArrayVal.shape, labIsStack, hs]
+  have hsh0 : (initArray (sliceTok a.dataTok i) (a.dataShape.drop 1) a.units .none).shape = a.shape := by
+    simp [initArray, ArrayVal.shape, labIsStack, hs]
+  obtain ⟨h1, h2, h3⟩ := hinv
+  obtain ⟨s, hmk, f1, f2, f3, f4, _, f6, f7⟩ := mkArray_ok ops (sliceTok a.dataTok i) (a.dataShape.drop 1) a.units
+    (a.dims.map DimArg.vec) a.dimNames a.dimUnits .none (fun n => a.dims.getD n [])
+    (by simp [labIsStack])
+    (by rw [hr0, List.length_map]; exact h1) (by rw [hr0]; exact h3) (by rw [hr0]; exact h2)
+    (by
+      intro n hn
+      rw [hr0] at hn
+      refine ⟨a.dims.getD n [], ?_⟩
+      rw [List.getD_eq_getElem?_getD, List.getElem?_map, List.getElem?_eq_getElem (by rw [h1]; exact hn)]
+      simp [List.getD_eq_getElem?_getD, List.getElem?_eq_getElem (show n < a.dims.length by rw [h1]; exact hn)])
+    (by
+      intro n hn
+      rw [hr0] at hn
+      rw [hsh0]
+      have : (a.dims.map DimArg.vec).getD n .none = .vec (a.dims.getD n []) := by
+        rw [List.getD_eq_getElem?_getD, List.getElem?_map, List.getElem?_eq_getElem (by rw [h1]; exact hn)]
+        simp [List.getD_eq_getElem?_getD, List.getElem?_eq_getElem (show n < a.dims.length by rw [h1]; exact hn)]
+      rw [this]
+      exact unpackDim_full ops _ _ (hdim n hn))
+  refine ⟨s, ?_, f1, by simpa [labIsStack] using f4, by rw [f2, hshape], ?_, f3, f6, ?_⟩
+  · simp only [ArrayVal.getSlice, hl, hmk, bind, Except.bind, pure, Except.pure]
+  · have : s.isStack = false := by simpa [labIsStack] using f4
+    simp only [ArrayVal.rank, ArrayVal.shape, this, f2, hs, Bool.false_eq_true, if_false, if_true]
+  · intro n hn
+    exact f7 n (by rw [hr0]; exact hn)
+
 -- non-vacuity: the witnesses of the two repaired defects, in the model
 example : (match mkArray realOps "t" [3] "" (some [.num (.flt 0x3FB999999999999A)]) none none .none with   -- dims=[0.1]
     | .ok a => (a.dims.getD 0 []).length == 3 | .error _ => false) = true := by decide
